@@ -3,8 +3,8 @@
        ([mem_bound_*], independent of the logical size), and
    (b) computes the NumPy meaning of every operation ([*_sparse_den]), for all shapes in
        unbounded Z — so it is a legitimate oracle for arrays with 10^18 logical elements. *)
-From Coq Require Import String ZArith List Bool Lia Sorting.Sorted.
-From Verif Require Import Shape COO COOP S_dense_sites SparseOps.
+From Coq Require Import ZArith List Bool Lia Sorting.Sorted.
+From Verif Require Import Shape COO COOP SparseOps.
 Import ListNotations.
 Open Scope Z_scope.
 
@@ -972,30 +972,6 @@ Proof.
     + unfold den. rewrite Ea, Eb. exact Hf.
 Qed.
 
-(* ================================================================= dense-allocation sites *)
-
-(* Full statement "every dense-allocation site of the anchored files is sanctioned",
-     forallb sanctioned dense_sites = true,
-   is FALSE of the source as it stands: three sites allocate or address a product of extents inside a
-   listed operation family (GCXS reductions: finding G1; GCXS indexing: G2; the scalar operand of an
-   element-wise operation viewed at the full logical shape: E1). *)
-Lemma dense_sites_sanctioned_refuted_proof :
-  exists s, In s dense_sites /\ sanctioned s = false /\ product_site s = true.
-Proof.
-  exists (mkSite "_compressed/compressed.py" "GCXS._reduce_calc" "np.arange"
-                 "x._compressed_shape[0], dtype=self.indptr.dtype" 1).
-  vm_compute. repeat split; auto 200.
-Qed.
-
-Lemma dense_sites_reviewed_proof :
-  forallb (fun s => xorb (sanctioned s) (product_site s)) dense_sites = true.
-Proof. vm_compute. reflexivity. Qed.
-
-Lemma product_sites_present_proof :
-  forallb (fun a => existsb (fun s => site_matches s a) dense_sites) product_sites = true
-  /\ length (filter product_site dense_sites) = 3%nat.
-Proof. vm_compute. split; reflexivity. Qed.
-
 (* ================================================================= well-formed operands *)
 
 Lemma nodupb_spec l : nodupb l = true -> NoDup l.
@@ -1182,4 +1158,126 @@ Example ex_canon : wfsb (sp_transpose [2; 0; 1]%nat ex_h) = true
   /\ c_coords (canon (sp_transpose [2; 0; 1]%nat ex_h)) = [[17; 5; 999999]; [17; 123456; 7]; [999999; 5; 0]; [999999; 999999; 999999]]
   /\ c_data (canon (sp_transpose [2; 0; 1]%nat ex_h)) = [3; 10; -4; 6]
   /\ c_coords (canon (sp_zip Z.add ex_x (sp_map Z.opp ex_x))) = [].
+Proof. vm_compute. repeat split; reflexivity. Qed.
+
+(* ================================================================= stack (= reshape with a new length-1 axis, then concatenate) *)
+
+Lemma insert_at_0 (v : Z) k : insert_at 0 v k = v :: k.
+Proof. reflexivity. Qed.
+Lemma insert_at_S a (v c : Z) k : insert_at (S a) v (c :: k) = c :: insert_at a v k.
+Proof. reflexivity. Qed.
+
+Lemma size_insert_1 a sh : (a <= length sh)%nat -> size (insert_at a 1 sh) = size sh.
+Proof.
+  revert sh. induction a as [|a IH]; intros sh H.
+  - rewrite insert_at_0. change (size (1 :: sh)) with (1 * size sh). lia.
+  - destruct sh as [|d sh]; simpl in H; [lia|]. rewrite insert_at_S.
+    change (size (d :: insert_at a 1 sh)) with (d * size (insert_at a 1 sh)). rewrite IH by lia. reflexivity.
+Qed.
+
+Lemma ravel_insert a sh k : (a <= length sh)%nat -> length k = length sh ->
+  ravel (insert_at a 1 sh) (insert_at a 0 k) = ravel sh k.
+Proof.
+  revert sh k. induction a as [|a IH]; intros sh k H Hl.
+  - rewrite !insert_at_0. cbn [ravel]. lia.
+  - destruct sh as [|d sh]; simpl in H; [lia|]. destruct k as [|c k]; [discriminate|].
+    rewrite !insert_at_S. cbn [ravel]. simpl in Hl. rewrite IH, size_insert_1 by lia. reflexivity.
+Qed.
+
+Lemma in_range_insert a sh k v i : (a <= length sh)%nat -> in_range sh k -> 0 <= i < v ->
+  in_range (insert_at a v sh) (insert_at a i k).
+Proof.
+  revert sh k. induction a as [|a IH]; intros sh k H Hr Hi.
+  - rewrite !insert_at_0. simpl. auto.
+  - destruct sh as [|d sh]; simpl in H; [lia|]. destruct k as [|c k]; simpl in Hr; [tauto|].
+    rewrite !insert_at_S. simpl. destruct Hr as [Hc Hr]. split; [exact Hc|]. apply IH; [lia|exact Hr|exact Hi].
+Qed.
+
+Lemma In_firstn_aux {A} n (l : list A) x : In x (firstn n l) -> In x l.
+Proof. revert l. induction n as [|n IH]; intros [|a l]; simpl; try tauto. intros [H|H]; auto. Qed.
+Lemma In_skipn_aux {A} n (l : list A) x : In x (skipn n l) -> In x l.
+Proof. revert l. induction n as [|n IH]; intros [|a l]; simpl; try tauto. intros H; auto. Qed.
+
+Lemma shape_ok_insert a sh : shape_ok sh -> shape_ok (insert_at a 1 sh).
+Proof.
+  unfold shape_ok, insert_at. intros H. apply Forall_app. split.
+  - apply Forall_forall. intros d Hd. rewrite Forall_forall in H. apply H. eapply In_firstn_aux; eauto.
+  - constructor; [lia|]. apply Forall_forall. intros d Hd. rewrite Forall_forall in H. apply H. eapply In_skipn_aux; eauto.
+Qed.
+
+Lemma insert_at_length a (v : Z) k : (a <= length k)%nat -> length (insert_at a v k) = S (length k).
+Proof.
+  intros H. unfold insert_at. rewrite app_length. simpl. rewrite firstn_length, skipn_length. lia.
+Qed.
+
+Lemma nth_insert_at a (v : Z) k : (a <= length k)%nat -> nth a (insert_at a v k) 0 = v.
+Proof.
+  revert k. induction a as [|a IH]; intros k H; [reflexivity|].
+  destruct k as [|c k]; simpl in H; [lia|]. rewrite insert_at_S. simpl. apply IH. lia.
+Qed.
+
+Lemma shift_insert_at a (v off : Z) k : (a <= length k)%nat ->
+  shift_axis a off (insert_at a v k) = insert_at a (v + off) k.
+Proof.
+  revert k. induction a as [|a IH]; intros k H; [reflexivity|].
+  destruct k as [|c k]; simpl in H; [lia|]. rewrite !insert_at_S, shift_axis_S. f_equal. apply IH. lia.
+Qed.
+
+Lemma reshape_shape_fill sh' (x : coo Z) : c_shape (sp_reshape sh' x) = sh' /\ c_fill (sp_reshape sh' x) = c_fill x.
+Proof. split; reflexivity. Qed.
+
+Lemma reshape_coords_in_range sh' (x : coo Z) :
+  shape_ok sh' -> size sh' = size (c_shape x) -> Forall (in_range (c_shape x)) (c_coords x) ->
+  Forall (in_range sh') (c_coords (sp_reshape sh' x)).
+Proof.
+  intros Hok Hsz Hr. unfold sp_reshape, sp_reshape_tr, sp_remap_tr. cbn [fst c_coords of_entries].
+  apply Forall_forall. intros k Hk. rewrite map_map in Hk. apply in_map_iff in Hk. destruct Hk as [[k0 v] [<- Hin]].
+  cbn [fst]. apply filter_In in Hin. destruct Hin as [Hin _].
+  rewrite Forall_forall in Hr.
+  assert (Hk0 : in_range (c_shape x) k0).
+  { apply Hr. apply entries_keys_incl. apply in_map_iff. exists (k0, v). auto. }
+  apply unravel_in_range; [exact Hok|]. rewrite Hsz. apply ravel_bounds. exact Hk0.
+Qed.
+
+(* position i (0 or 1) along the new axis a selects the operand *)
+Theorem stack_sparse_den_proof (a : nat) (x y : coo Z) (k : idx) (i : Z) :
+  (a <= length (c_shape x))%nat -> c_shape y = c_shape x -> shape_ok (c_shape x) ->
+  Forall (in_range (c_shape x)) (c_coords x) -> Forall (in_range (c_shape y)) (c_coords y) ->
+  c_fill y = c_fill x -> in_range (c_shape x) k -> 0 <= i < 2 ->
+  den (sp_stack a x y) (insert_at a i k) = if i =? 0 then den x k else den y k.
+Proof.
+  intros Ha Hsy Hok Hrx Hry Hfill Hk Hi. set (sh := c_shape x) in *. set (sh1 := insert_at a 1 sh).
+  unfold sp_stack, sp_stack_tr. cbn [fst]. rewrite Hsy. fold sh. fold sh1.
+  fold (sp_reshape sh1 x). fold (sp_reshape sh1 y). fold (sp_concat a (sp_reshape sh1 x) (sp_reshape sh1 y)).
+  assert (Hok1 : shape_ok sh1) by (apply shape_ok_insert; exact Hok).
+  assert (Hsz : size sh1 = size sh) by (apply size_insert_1; exact Ha).
+  assert (Hlk : length k = length sh) by (apply in_range_length; exact Hk).
+  rewrite concat_sparse_den_proof.
+  - change (c_shape (sp_reshape sh1 x)) with (insert_at a 1 sh).
+    rewrite !nth_insert_at by lia.
+    assert (Hback : forall j, 0 <= j < 1 -> forall z : coo Z, c_shape z = sh ->
+              Forall (in_range sh) (c_coords z) ->
+              den (sp_reshape sh1 z) (insert_at a j k) = den z k).
+    { intros j Hj z Hz Hrz. rewrite reshape_sparse_den_proof; rewrite ?Hz; auto.
+      - assert (j = 0) by lia. subst j. unfold sh1. rewrite ravel_insert by lia.
+        rewrite unravel_ravel by exact Hk. reflexivity.
+      - apply in_range_insert; [exact Ha|exact Hk|lia]. }
+    destruct (Z.ltb_spec i 1) as [Hlt|Hge].
+    + assert (i = 0) by lia. subst i. change (0 =? 0) with true. cbv iota.
+      apply (Hback 0); [lia|reflexivity|exact Hrx].
+    + assert (i = 1) by lia. subst i. change (1 =? 0) with false. cbv iota.
+      rewrite shift_insert_at by lia. replace (1 + - (1)) with 0 by lia.
+      apply (Hback 0); [lia|exact Hsy|]. rewrite <- Hsy. exact Hry.
+  - change (c_shape (sp_reshape sh1 x)) with (insert_at a 1 sh). rewrite insert_at_length by exact Ha. lia.
+  - reflexivity.
+  - apply reshape_coords_in_range; auto.
+  - assert (E : c_shape (sp_reshape sh1 y) = c_shape (sp_reshape sh1 x)) by reflexivity.
+    apply reshape_coords_in_range; [exact Hok1|rewrite Hsy; exact Hsz|exact Hry].
+  - cbn. exact Hfill.
+  - change (c_shape (sp_reshape sh1 x)) with (insert_at a 1 sh). rewrite !insert_at_length by lia. lia.
+Qed.
+
+Example ex_stack : den (sp_stack 1 ex_h (sp_map Z.opp ex_h)) (insert_at 1 1 [5; 999999; 17]) = -3
+                   /\ den (sp_stack 1 ex_h (sp_map Z.opp ex_h)) (insert_at 1 0 [5; 999999; 17]) = 3
+                   /\ c_shape (sp_stack 1 ex_h ex_h) = [1000000; 2; 1000000; 1000000].
 Proof. vm_compute. repeat split; reflexivity. Qed.
